@@ -56,12 +56,14 @@ def cigar_for(L):
     return (f"{a}=" if a else "") + (f"{L - a}X" if L - a else ""), a
 
 
-def records_for(segs, walk, qprefix):
+def records_for(segs, walk, qprefix, spans=None):
     plen = sum(segs[n]["ln"] for _, n in walk)
     path = "".join(o + n for o, n in walk)
     out = []
-    for ps in range(plen):
-        for pe in range(ps + 1, plen + 1):
+    if spans is None:
+        spans = [(ps, pe) for ps in range(plen) for pe in range(ps + 1, plen + 1)]
+    for ps, pe in spans:
+        if True:
             L = pe - ps
             cg, a = cigar_for(L)
             name = f"{qprefix}_{ps}_{pe}"
@@ -84,11 +86,12 @@ def run_graph(job):
     d = tempfile.mkdtemp(prefix="coords_")
     try:
         gfa = os.path.join(d, "g.gfa" + (".gz" if gfa_gz else ""))
-        write_text(gfa, gfa_text(segs, [w for _, w in walks]), "gz" if gfa_gz else "plain")
+        write_text(gfa, gfa_text(segs, [it[1] for it in walks]), "gz" if gfa_gz else "plain")
         lines = []
         spans = []
-        for wid, w in walks:
-            recs = records_for(segs, w, wid)
+        for item in walks:
+            wid, w = item[0], item[1]
+            recs = records_for(segs, w, wid, item[2] if len(item) > 2 else None)
             spans.append((wid, w, len(lines), len(lines) + len(recs)))
             lines += recs
         u = os.path.join(d, "u.gaf" + (".gz" if gaf_storage == "bgzf" else ""))
@@ -113,7 +116,7 @@ def run_graph(job):
             cases.append(c)
         return cases
     except Exception as e:  # noqa
-        return [{"id": f"{gid}.{wid}", "mode": mode, "status": f"harness_{type(e).__name__}", "segs": segs, "walk": "", "recs": []} for wid, _ in walks]
+        return [{"id": f"{gid}.{it[0]}", "mode": mode, "status": f"harness_{type(e).__name__}", "segs": segs, "walk": "", "recs": []} for it in walks]
     finally:
         shutil.rmtree(d, ignore_errors=True)
 
@@ -144,6 +147,47 @@ def random_graph_jobs(rnd, n, mode, maxref=6, maxhap=4, maxlen=5, maxwalk=6, nwa
     return jobs
 
 
+def fixture_jobs(rnd, mode, n):
+    """the repository's own 13-node test graph (real coordinates, ids such as s464827, a contig name with '#'):
+    seeded walks along its links in both directions with random offsets"""
+    import re
+
+    segs, links = {}, []
+    for line in open("/repo/tests/data/smallgraph.gfa"):
+        f = line.rstrip("\n").split("\t")
+        if f[0] == "S":
+            t = {x.split(":", 2)[0]: x.split(":", 2)[2] for x in f[3:]}
+            segs[f[1]] = {"sn": t["SN"], "so": int(t["SO"]), "ln": int(t["LN"]), "sr": int(t["SR"])}
+        elif f[0] == "L":
+            links.append((f[1], f[2], f[3], f[4]))
+    nxt = {}
+    for a, ao, b, bo in links:
+        nxt.setdefault((a, ao), []).append((b, bo))
+        nxt.setdefault((b, "-" if bo == "+" else "+"), []).append((a, "-" if ao == "+" else "+"))
+    jobs = []
+    per = 12
+    for j in range(n // per):
+        walks = []
+        for wi in range(per):
+            cur = (rnd.choice(list(segs)), rnd.choice("+-"))
+            walk = [cur]
+            while len(walk) < rnd.randint(1, 4) and walk[-1] in nxt:
+                walk.append(rnd.choice(nxt[walk[-1]]))
+            w = [(">" if o == "+" else "<", nd) for nd, o in walk]
+            plen = sum(segs[nd]["ln"] for _, nd in w)
+            spans = []
+            for _ in range(3):
+                ps = rnd.randint(0, min(plen - 1, segs[w[0][1]]["ln"] - 1)) if rnd.random() < 0.7 else rnd.randint(0, plen - 1)
+                pe = rnd.randint(max(ps + 1, plen - segs[w[-1][1]]["ln"] + 1), plen) if rnd.random() < 0.7 else rnd.randint(ps + 1, plen)
+                if pe - ps > 3000:
+                    pe = ps + rnd.randint(1, 3000)
+                spans.append((ps, pe))
+            spans += [(0, min(plen, 2500))]
+            walks.append((f"w{wi}", w, spans))
+        jobs.append((f"F{j}", segs, walks, mode, rnd.choice(["plain", "bgzf"]), rnd.random() < 0.3))
+    return jobs
+
+
 def run_mode(ctx, mode):
     rnd = random.Random(ctx.seed)
     # design check: the TLA+ model of the two conversions satisfies the C01/C02 theorems on every generator state, all offsets
@@ -165,6 +209,7 @@ def run_mode(ctx, mode):
         jobs.append((f"G{gi}", segs, [(f"w{wi}", w) for wi, w in enumerate(walks)], mode, "bgzf" if gi % 3 == 2 else "plain", gi % 5 == 4))
     njobs_enum = len(jobs)
     jobs += random_graph_jobs(rnd, 60 if not ctx.thorough else 600, mode)
+    jobs += fixture_jobs(rnd, mode, 96 if not ctx.thorough else 960)
     # process in slices so that a thorough run (hundreds of thousands of (graph, walk) cases) stays within memory
     samples = []
     step = 120
